@@ -76,7 +76,9 @@ class State:
         self.solver = z3.Solver()
         self.solver.set("timeout", FEAS_TIMEOUT_MS)
         self.written = set()
-        self.ghost = {}
+        self.ghost = {"SLEPT": Val("Real", z3.RealVal(0))}
+        self.suspend_heap = None
+        self.suspend_ghost = None
         self.label = label
         self.notes = []
         self.set_views = {}     # id(list ref term) -> dom array (lists built by iterating a set / dict)
